@@ -65,7 +65,7 @@ def make_specs(ctx, purpose='c09'):
 
     def add(H, P, subset, **kw):
         s = dict(idx=len(specs), seed=ctx.seed, H=H, P=P, subset=list(subset), AB=False, shear=False, conformity=False,
-                 ranks=False, velbias=False, rsd=False, origin=False, ties=False, Nthread=1, f32=False)
+                 ranks=False, velbias=False, rsd=False, origin=False, ties=False, Nthread=1, f32=False, qmass=False)
         s.update(kw)
         specs.append(s)
 
@@ -82,6 +82,11 @@ def make_specs(ctx, purpose='c09'):
     for subset in SUBSETS:
         for rsd in (False, True):
             add(12, 16, subset, ties=True, rsd=rsd, velbias=rsd, Nthread=rng.choice([1, 4]))
+    # particle-count masses (N * Mpart, as in a real catalogue): many hosts share a bit-identical mass while their environment,
+    # shear and central differ — anything keyed on the host mass instead of the host is exposed here
+    for subset in SUBSETS:
+        add(40, 160, subset, qmass=True, AB=True, shear=True, conformity=True, ranks=rng.random() < .5, velbias=True,
+            rsd=rng.random() < .5, Nthread=rng.choice([1, 2, 3, 16]))
     # degenerate sizes
     for (H, P) in sizes_small[:3]:
         for subset in (('LRG',), ('ELG', 'QSO'), TRACERS):
@@ -148,6 +153,8 @@ def build_case(spec):
               hid=(np.arange(H, dtype=np.int64) * 7 + 1000), hmultis=rng.choice([1.0, 1.0, 2.0], H),
               hrandoms=rng.uniform(0, 1, H), hveldev=rng.normal(0, 120, (H, 3)),
               hsigma3d=rng.uniform(100, 500, H), hc=rng.uniform(3, 10, H), hrvir=rng.uniform(0.1, 2, H))
+    if spec.get('qmass') and H:
+        hd['hmass'] = 2.1e9 * rng.choice([1500.0, 4000.0, 4800.0, 9000.0, 30000.0], H)
     if spec['AB']:
         hd['hdeltac'] = rng.uniform(-1, 1, H)
         hd['hfenv'] = rng.uniform(-1, 1, H)
@@ -459,6 +466,9 @@ def run_catalog(case, Nthread=None, py_func=False):
     nt = int(Nthread or case['Nthread'])
     hd = {k: v for k, v in case['halo'].items()}
     pd = {k: v for k, v in case['part'].items()}
+    if not py_func:
+        import numba
+        numba.set_num_threads((16, 1, 2, 5)[(nt + len(hd.get('hid', []))) % 4])     # entry thread count left by earlier numba code
     out = G.gen_gal_cat(hd, pd, case['tracers'], dict(case['params']), Nthread=nt, enable_ranks=case['enable_ranks'],
                         rsd=case['rsd'], verbose=False, write_to_disk=False)
     return {T: {k: (int(v) if k == 'Ncent' else np.asarray(v)) for k, v in o.items()} for T, o in out.items()}
